@@ -450,6 +450,10 @@ def finish_case(ctx, kind, case, req, model, analysis, samples, search, internal
     ctx.hit(f"free-parameters:{min(model.prior_count, 5)}")
     if len(model.paths) > model.prior_count:
         ctx.hit("model:shared-prior")
+    if kind not in c05_more.KINDS and nbad >= 0 and (case.get("mode") == "fit" or ctx.rng.random() < 0.5):
+        if kind == "dynesty":
+            c05_more.weight_sum_check(ctx, kind, case, samples, normalised=True)
+        c05_more.xform_check(ctx, kind, case, model, samples)
     return nbad
 
 
@@ -795,6 +799,10 @@ SYNTH = {
     "drawer": synth_drawer,
 }
 
+import c05_more  # growth: Nautilus / UltraNest / Zeus conversions, weights, transformations of a sample list
+
+c05_more.install(sys.modules[__name__])
+
 # ---------------------------------------------------------------------------------------------
 # real fits
 
@@ -1028,7 +1036,7 @@ def run(ctx):
     run_corpus(ctx)
     rng = ctx.rng
     n = ctx.n(330, 6000)
-    kinds = list(SYNTH)
+    kinds = [k for k in SYNTH if k not in c05_more.KINDS and k != "xform"]
     for k in range(n):
         kind = kinds[k % len(kinds)]
         prog, model = gen_model(ctx)
@@ -1037,6 +1045,7 @@ def run(ctx):
         if quant:
             ctx.hit("likelihood:piecewise-constant(ties)")
         guarded(ctx, kind, prog, analysis, lambda: SYNTH[kind](ctx, prog, model, analysis))
+    c05_more.run_more(ctx)
     for _ in range(ctx.n(10, 60)):
         prog, model = gen_model(ctx)
         analysis = make_analysis(rng, model)
